@@ -378,7 +378,7 @@ theorem secWrite_messages (c : Config) (s : State) (x : Str) : (secWrite c s x).
 
 theorem overwrite_messages (c : Config) (s : State) (t : Nat) (msg : Str) :
     (overwrite c s t msg).1.messages = s.messages := by
-  unfold overwrite
+  unfold overwrite overwriteWith
   cases hk : c.kind <;> simp [secClear_messages, secWrite_messages]
 
 theorem overwrite_inv (c : Config) (s : State) (t : Nat) (msg : Str) (h : FormatInv s) :
